@@ -40,6 +40,7 @@ package yqlib
 //@   ensures result == (node != nil && node.Tag != "!!null" && (!(node.Kind == ScalarNode && node.Tag == "!!bool") || truthyText(node.Value)))
 
 //@ func parseSnippet
+//@   modifies \nothing
 //@   trusted
 //@   ensures (result1 == nil) == (value == "" || snippetOk(value))
 //@   ensures implies(result1 == nil, result0 != nil && fresh(result0))
@@ -51,6 +52,7 @@ package yqlib
 //@   ensures result == effTag(n.Tag, n.Value)
 
 //@ func parseDateTime
+//@   modifies \nothing
 //@   trusted
 //@   ensures (result1 == nil) == timeOk(layout, datestring)
 //@   ensures implies(result1 == nil, instant(result0) == timeOf(layout, datestring))
@@ -94,6 +96,7 @@ package yqlib
 // encoder_sh.go, encoder_shellvariables.go
 
 //@ func (*shEncoder).shouldQuote
+//@   modifies \nothing
 //@   props C17
 //@   trusted executed
 //@   requires e != nil
@@ -187,6 +190,7 @@ package yqlib
 
 // calls the ToString function value stored in the operation table: assumed to be a pure printer
 //@ func (*Operation).toString
+//@   modifies \nothing
 //@   trusted
 //@   requires implies(p != nil, p.OperationType != nil)
 
@@ -464,9 +468,11 @@ package yqlib
 
 // Encoder methods reached through the interface: assumed (trusted) not to write document nodes
 //@ func invoke Encoder.PrintLeadingContent
+//@   modifies \nothing
 //@   trusted
 
 //@ func invoke Encoder.PrintDocumentSeparator
+//@   modifies \nothing
 //@   trusted
 
 // ---------------------------------------------------------------------------------------------
@@ -669,12 +675,12 @@ package yqlib
 //@   ensures implies(name != tmpPath && name != targetPath, tmpMode == old(tmpMode) && targetMode == old(targetMode))
 
 //@ func invoke os.FileInfo.Mode
+//@   modifies \nothing
 //@   trusted
 //@   ensures result == infoMode(recv)
 
 //@ func safelyCloseFile
 //@   props C12 C11
-//@   requires file != nil
 
 //@ func tryRemoveTempFile
 //@   props C12
@@ -698,6 +704,7 @@ package yqlib
 //@   always @never-truncated implies(old(targetState) != 2, targetState != 2)
 
 //@ func changeOwner
+//@   modifies \nothing
 //@   trusted
 
 //@ func createTempFile
@@ -725,12 +732,15 @@ package yqlib
 
 // assumed: GetDocument / GetFileIndex return the provenance recorded at the root (spec/doc.smt2)
 //@ func invoke Encoder.Encode
+//@   modifies \nothing
 //@   trusted
 
 //@ func invoke Encoder.CanHandleAliases
+//@   modifies \nothing
 //@   trusted
 
 //@ func invoke PrinterWriter.GetWriter
+//@   modifies \nothing
 //@   trusted
 //@   ensures implies(result1 == nil, result0 != nil)
 
@@ -762,6 +772,7 @@ package yqlib
 
 //@ func invoke DataTreeNavigator.GetMatchingNodes
 //@   trusted
+//@   keeps streamEvaluator.* resultsPrinter.*
 //@   requires validCtx(context)
 //@   ensures implies(result1 == nil, validCtx(result0))
 
@@ -780,3 +791,116 @@ package yqlib
 //@     invariant @position (el == nil && iter() == len(matchingNodes)) || (el != nil && elList(el) == matchingNodes && elIdx(el) == iter())
 //@     invariant @separator-state-document {C10} implies(iter() > 0, p.previousDocIndex == rootDocument(nodeAt(matchingNodes, iter()-1)))
 //@     invariant @separator-state-file {C10} implies(iter() > 0, p.previousFileIndex == rootFileIndex(nodeAt(matchingNodes, iter()-1)))
+
+// ---------------------------------------------------------------------------------------------
+// stream_evaluator.go / utils.go / all_at_once_evaluator.go: provenance stamping (C10)
+//
+// decoded: number of documents successfully decoded so far by any decoder (ghost).
+
+//@ ghostvar decoded Int
+
+//@ func invoke Decoder.Init
+//@   trusted
+//@   keeps streamEvaluator.*
+//@   modifies \nothing // but the decoder's own state, which no caller under contract observes
+
+//@ func invoke Decoder.Decode
+//@   trusted
+//@   keeps streamEvaluator.*
+//@   modifies \nothing, decoded // and the decoder's own state, which no caller under contract observes; no pre-existing node
+//@   ensures implies(result1 == nil, result0 != nil && fresh(result0) && decoded == old(decoded) + 1)
+//@   ensures implies(result1 != nil, decoded == old(decoded))
+//@   ensures @physical 0 <= old(decoded) && decoded < 4611686018427387904 // fewer than 2^62 documents are decoded in one process
+
+//@ func invoke Printer.PrintResults
+//@   trusted
+//@   keeps streamEvaluator.*
+//@   requires matchingNodes != nil
+
+//@ func (*streamEvaluator).Evaluate
+//@   props C10 C11 C19
+//@   noframe
+//@   keeps nonnil:var.ExpressionParser streamEvaluator.treeNavigator
+//@   modifies decoded
+//@   requires s != nil && s.treeNavigator != nil && printer != nil && decoder != nil && node != nil
+//@   requires @file-count-fits 0 <= s.fileIndex && s.fileIndex < 4611686018427387904
+//@   assume @ghost-counter decoded >= 0
+//@   at GetMatchingNodes: assert @stamped-position {C10} candidateNode.document == currentIndex && currentIndex == decoded - 1 - old(decoded)
+//@   at GetMatchingNodes: assert @stamped-origin {C10} candidateNode.filename == filename && candidateNode.fileIndex == old(s.fileIndex)
+//@   at GetMatchingNodes: assert @one-document-at-a-time {C10} len(inputList) == 1 && nodeAt(inputList, 0) == candidateNode
+//@   ensures @file-index-advances {C10} implies(result1 == nil, s.fileIndex == old(s.fileIndex) + 1)
+//@   ensures @counts-documents {C10} implies(result1 == nil, result0 == decoded - old(decoded) && old(decoded) <= decoded && decoded < 4611686018427387904)
+//@   loop 1:
+//@     invariant @counter {C10} currentIndex == decoded - old(decoded) && s.fileIndex == old(s.fileIndex)
+
+//@ pred stampedDocs(l, n, filename, fileIndex) = forall(i, 0, n, isNode(listAt(l, i)) && nodeAt(l, i) != nil && nodeAt(l, i).document == i && nodeAt(l, i).filename == filename && nodeAt(l, i).fileIndex == fileIndex && nodeAt(l, i).EvaluateTogether)
+
+//@ func readDocuments
+//@   props C10 C11 C19
+//@   modifies decoded
+//@   requires decoder != nil
+//@   assume @ghost-counter decoded >= 0
+//@   at PushBack: assert @stamped-position {C10} candidateNode.document == currentIndex && currentIndex == decoded - 1 - old(decoded)
+//@   at PushBack: assert @stamped-origin {C10} candidateNode.filename == filename && candidateNode.fileIndex == fileIndex && candidateNode.EvaluateTogether
+//@   ensures @all-documents-in-order {C10} implies(result1 == nil, result0 != nil && fresh(result0) && len(result0) == decoded - old(decoded) && stampedDocs(result0, len(result0), filename, fileIndex))
+//@   ensures implies(result1 != nil, result0 == nil)
+//@   ensures implies(result1 == nil, forall(i, 0, len(result0), allocated(nodeAt(result0, i))))
+//@   loop 1:
+//@     invariant @counter {C10} currentIndex == decoded - old(decoded) && len(inputList) == currentIndex && fresh(inputList)
+//@     invariant @stamped-so-far {C10} stampedDocs(inputList, len(inputList), filename, fileIndex)
+//@     invariant @allocated forall(i, 0, len(inputList), allocated(nodeAt(inputList, i)))
+
+//@ func invoke ExpressionParserInterface.ParseExpression
+//@   trusted
+//@   keeps streamEvaluator.* allAtOnceEvaluator.* nonnil:var.ExpressionParser // checked on the call graph
+//@   modifies \nothing // assumed: parsing an expression writes no document, list or evaluator (lexer globals: see C18)
+//@   ensures implies(result1 == nil, result0 != nil)
+
+//@ func readStream
+//@   props C11 C19
+//@   ensures implies(result1 == nil, result0 != nil)
+
+//@ func (*streamEvaluator).EvaluateNew
+//@   props C11 C19
+//@   noframe
+//@   requires s != nil && s.treeNavigator != nil && printer != nil
+//@   requires @parser-initialised ExpressionParser != nil
+//@   ensures s.fileIndex == old(s.fileIndex)
+
+//@ func (*streamEvaluator).EvaluateFiles
+//@   props C10 C11 C19
+//@   noframe
+//@   modifies decoded
+//@   requires s != nil && s.treeNavigator != nil && printer != nil && decoder != nil
+//@   requires @parser-initialised ExpressionParser != nil
+//@   requires @file-count-fits 0 <= s.fileIndex && s.fileIndex + len(filenames) < 4611686018427387904
+//@   assume @ghost-counter decoded >= 0
+//@   at Evaluate: assert @files-in-order {C10} filename == filenames[rangeidx()] && s.fileIndex == old(s.fileIndex) + rangeidx()
+//@   ensures @every-file-counted {C10} implies(result == nil, s.fileIndex == old(s.fileIndex) + len(filenames))
+//@   loop 1:
+//@     invariant @file-index {C10} s.fileIndex == old(s.fileIndex) + rangeidx() && totalProcessDocs == decoded - old(decoded) && old(decoded) <= decoded
+//@     invariant @parser-stays ExpressionParser != nil
+
+//@ pred docNodes(l, n) = forall(i, 0, n, isNode(listAt(l, i)) && nodeAt(l, i) != nil)
+//@ pred docsInOrder(l, n) = forall(i, 0, n, forall(j, 0, n, implies(i < j, nodeAt(l, i).fileIndex < nodeAt(l, j).fileIndex || (nodeAt(l, i).fileIndex == nodeAt(l, j).fileIndex && nodeAt(l, i).document < nodeAt(l, j).document))))
+
+//@ func (*allAtOnceEvaluator).EvaluateCandidateNodes
+//@   props C11 C19
+//@   noframe
+//@   requires e != nil && e.treeNavigator != nil && inputCandidates != nil && docNodes(inputCandidates, len(inputCandidates))
+//@   requires @parser-initialised ExpressionParser != nil
+//@   ensures implies(result1 == nil, result0 != nil)
+
+//@ func (*allAtOnceEvaluator).EvaluateFiles
+//@   props C10 C11 C19
+//@   noframe
+//@   modifies decoded
+//@   requires e != nil && e.treeNavigator != nil && printer != nil && decoder != nil
+//@   requires @parser-initialised ExpressionParser != nil
+//@   assume @ghost-counter decoded >= 0
+//@   at readDocuments: assert @files-in-order {C10} filename == filenames[rangeidx()] && fileIndex == rangeidx()
+//@   at EvaluateCandidateNodes: assert @all-documents-in-order {C10} len(allDocuments) > 0 && docNodes(allDocuments, len(allDocuments)) && docsInOrder(allDocuments, len(allDocuments))
+//@   loop 1:
+//@     invariant @counter {C10} fileIndex == rangeidx() && fresh(allDocuments) && ExpressionParser != nil
+//@     invariant @nodes {C10} docNodes(allDocuments, len(allDocuments)) && forall(i, 0, len(allDocuments), allocated(nodeAt(allDocuments, i)) && nodeAt(allDocuments, i).fileIndex < fileIndex)
+//@     invariant @ordered {C10} docsInOrder(allDocuments, len(allDocuments))
